@@ -529,6 +529,7 @@ def run(ctx):
         raise AnalysisError('expected at least four session creation sites in processors / protocol code (found %d)' % n_sites)
     from .common import download_recycles_rule
     download_recycles_rule(ctx, 'C12-D7')
+    _no_handle_after_give_back(ctx, bs)
     rc = repo.func(bs.qual + '.recycle')
     okr = False
     for lp in walk_no_nested(rc.node):
@@ -560,6 +561,94 @@ def run(ctx):
     okrl = 'release' in names and 'clean' in names and names.index('release') < names.index('clean')
     ck.expect(okrl, 'C12-D7', rl.qual, 'host_pool.release(connection) then clean()', 'ConnectionPool.release changed', rl.loc())
     _d8_cancellation(ctx, fields)
+
+
+def _no_handle_after_give_back(ctx, bs):
+    """A session gives its connections back in recycle() (at the end of download(), long before the `with` block is left) and is
+    aborted afterwards as a matter of course (WebSession.__exit__).  abort() therefore acts on connections only through the
+    ownership set recycle() empties: a field that still aliases the connection (the stream built over it) and is not cleared by
+    recycle() must not be acted on there - by then the connection may be checked out by somebody else."""
+    repo, ck = ctx.repo, ctx.check
+    ACQ = ('_acquire_connection', '_acquire_request_connection')
+    n_cls = 0
+    for c in repo.classes.values():
+        if not c.module.name.startswith('wpull.protocol.') or c.qual == bs.qual or bs.qual not in {b.qual for b in repo.mro(c)}:
+            continue
+        n_cls += 1
+        alias = set()
+        changed = True
+        while changed:
+            changed = False
+            for m in c.methods.values():
+                local_alias = set()
+                for st in sorted((x for x in ast.walk(m.node) if isinstance(x, ast.Assign)), key=lambda x: x.lineno):
+                    v = st.value
+                    if isinstance(v, (ast.YieldFrom, ast.Await)):
+                        v = v.value
+                    src = False
+                    if isinstance(v, ast.Call):
+                        if U.attr_name(v) in ACQ:
+                            src = True
+                        for a in list(v.args) + [k.value for k in v.keywords]:
+                            if (U.is_self_attr(a) and a.attr in alias) or (isinstance(a, ast.Name) and a.id in local_alias):
+                                src = True
+                    elif (U.is_self_attr(v) and v.attr in alias) or (isinstance(v, ast.Name) and v.id in local_alias):
+                        src = True
+                    if not src:
+                        continue
+                    for t in st.targets:
+                        for x in ast.walk(t):
+                            if isinstance(x, ast.Name):
+                                local_alias.add(x.id)
+                            elif U.is_self_attr(x) and x.attr not in alias:
+                                alias.add(x.attr)
+                                changed = True
+        # fields recycle() clears (itself or through a helper of the class)
+        cleared = set()
+        rc = c.methods.get('recycle')
+        seen = set()
+        work = [rc] if rc is not None else []
+        while work:
+            m = work.pop()
+            if m is None or m.qual in seen:
+                continue
+            seen.add(m.qual)
+            for st in ast.walk(m.node):
+                if isinstance(st, ast.Assign) and isinstance(st.value, ast.Constant) and st.value.value is None:
+                    cleared |= {t.attr for t in st.targets if U.is_self_attr(t)}
+            for cl in U.calls(m.node):
+                if isinstance(cl.func, ast.Attribute) and isinstance(cl.func.value, ast.Name) and cl.func.value.id == 'self':
+                    work.append(c.methods.get(cl.func.attr))
+        ab = c.methods.get('abort')
+        if ab is None:
+            continue
+        bad = None
+        work, seen = [ab], set()
+        while work:
+            m = work.pop()
+            if m is None or m.qual in seen:
+                continue
+            seen.add(m.qual)
+            for cl in U.calls(m.node):
+                if not isinstance(cl.func, ast.Attribute):
+                    continue
+                r = cl.func.value
+                if isinstance(r, ast.Name) and r.id == 'self':
+                    if cl.func.attr not in ('recycle',):
+                        work.append(c.methods.get(cl.func.attr))
+                    continue
+                # self.<alias>.method(...) or self.<alias>.<x>.method(...)
+                base = r
+                while isinstance(base, ast.Attribute) and not U.is_self_attr(base):
+                    base = base.value
+                if U.is_self_attr(base) and base.attr in alias and base.attr not in cleared and cl.func.attr not in ('closed',):
+                    bad = bad or (m, cl, base.attr)
+        ck.expect(bad is None, 'C12-D7', ab.qual, 'abort() acts on connections only through the set recycle() empties',
+                  '`%s` in %s: self.%s still refers to the connection after recycle() has given it back (recycle does not clear the field) and '
+                  'abort() runs after that on every exit of the web session - it then acts on a connection somebody else may have checked out'
+                  % ((norm_text(bad[1])[:60], bad[0].name, bad[2]) if bad else ('', '', '')), (bad[0].loc(bad[1]) if bad else ab.loc()))
+    if n_cls < 2:
+        raise AnalysisError('expected the HTTP and the FTP session classes below BaseSession (found %d)' % n_cls)
 
 
 def _d8_cancellation(ctx, fields):
